@@ -14,9 +14,15 @@ PROP = {
   'the coordinator commits only after both proxies report SwitchCommitted',
   'TRUSTED table canDeleteNames (Redis documentation): which supported commands can remove their first key'],
  'gaps': [
-  'stage 1 delivered: model + trace-inclusion correspondence + classification theorems + proved negations of the '
-  'full statement (F03a, F03b); C03_register_partial (invariant MigInv) is stage 2',
+  'C03_register (full statement: RegisterStep for every step of every execution, no hypotheses) is FALSE for the '
+  'code as it is: proved negations C03_register_full_false_pull_delete (F03a) and '
+  'C03_register_full_false_commit_race (F03b). C03_register_partial carries the hypotheses GoodStep = (1) no '
+  'deleting command outside requires_blocking_migration is issued (F03a), (2) the destination installs the committed '
+  'metadata only while no key lock of the key is held (F03b); everything else (slow path, all connection counts, both '
+  'redirect modes, any number of concurrent ops, spurious slot-mutex contention) is covered',
   'per-key model: cross-key effects enter only as spurious SlotMutex contention and lock-step scan batches',
+  'liveness (every op eventually answers, the scan terminates) is not stated',
+  'thorough tier: random + adversarial gate schedules; the exhaustive DFS for 1 key / 3 ops planned in DESIGN was not built',
  ],
  'trusted': [
   'hand-written per-key model UmModel/Migration.lean (tied to the code by trace inclusion on gate-scheduled runs of '
@@ -28,12 +34,18 @@ CHECK = {
  'design_ref': '§6 C03',
  'technique': 'Lean 4 theorems over a per-key small-step model + trace-inclusion correspondence on gate-scheduled '
               'runs of two real proxies + register-linearizability oracle on the implementation',
- 'text': 'partial: stage 1. Proved: every deleting command with its own DataCmdType takes the UMSYNC push path '
-         '(generated requires_blocking_migration table, BLPOP.. through the rewrite), and exactly '
-         'SDIFFSTORE/SINTERSTORE/ZINTERSTORE/ZUNIONSTORE (typed Others) do not (F03a). Proved negations of the '
-         'full register statement by two concrete executions, both reproduced on the real code with the gate '
-         'scheduler: F03a (pull-path delete resurrected by the scan) and F03b (post-commit DEL overtaken by the '
-         'RESTORE of a pull that started before the commit).',
+ 'text': 'partial: proved for the full per-key model (pull path, UMSYNC fast and slow path, scan batches, handshake, '
+         'commit, both redirect modes, unordered in-flight commands = every backend_conn_num, unboundedly many '
+         'concurrent client ops) that every step refines an atomic register (linearization point = execution of the '
+         'client command; nothing else changes dst<|>src) and that at quiescence after both commits the source is '
+         'empty and the destination holds the register content - UNDER two hypotheses that exclude exactly the two '
+         'defects found: F03a (SDIFFSTORE/SINTERSTORE/ZINTERSTORE/ZUNIONSTORE, typed Others, delete their key through '
+         'the pull path; the scan resurrects it) and F03b (a DEL acknowledged after the destination commit is '
+         'overtaken by the RESTORE of a pull that started before it). Both are proved as negations of the full '
+         'statement in the model and reproduced on the real proxies with the gate scheduler (replays in corpus/C03). '
+         'The model is tied to the code by trace inclusion: every backend command, proxy-to-proxy command, client '
+         'reply and task-state change of gate-scheduled runs of two real SharedForwardHandlers must be a step of the '
+         'model (tau-closed state sets per key).',
  'note': 'Trusted: Lean kernel; model transliteration (checked by trace inclusion every run); Redis semantics of '
          'the fake node; canDeleteNames table; C11 barrier contract; SCAN guarantee.',
 }
